@@ -3,6 +3,8 @@ import BFL.Bridge.Mat
 import BFL.Proofs.UT
 import BFL.Proofs.UTCirc
 import BFL.Proofs.UTEuler
+import BFL.Proofs.UTEulerAffine
+import BFL.Proofs.UTQuat
 import Mathlib.Analysis.Matrix.Order
 import Mathlib.Analysis.SpecialFunctions.Sqrt
 /-
@@ -458,6 +460,99 @@ theorem ut_euler_reproduces (ly : Layout) (hq : ly.quat = false) (hz : ly.noise 
   · exact utLayoutMean_circ ly hq hz alpha beta kappa hc hn m B qmean r hr
       (hR ⟨r.val, euler_row_lt_dof ly hq hz r⟩ hr)
   · exact utLayoutComponent_euler_cov ly hq hz alpha beta kappa hc hn m B P qmean hB hsmall hR
+
+/-- **Affine maps into linear + Euler-angle layouts, assembled (`T P Tᵀ`).**  Moment computation of the
+    layout-general model on propagated points whose rows are `ȳ_r + (T·[0, B, −B])_r` — exactly on the
+    linear rows, modulo 2π on the angle rows (what a map that is affine on the linear block and of the form
+    `±angle + C·x_lin + b` on the angles produces from wrapped sigma points).  For every factor with
+    `B Bᵀ = c P`, angle rows of `T B` within half a turn and positive weighted resultants: the mean is
+    `ȳ` (angles mod 2π), the covariance `T P Tᵀ`, and the cross-covariance with input offsets
+    `[0, B_f, −B_f]` (`B_f` = the non-noise rows of `B`) is the corresponding rows of `P Tᵀ`. -/
+theorem ut_euler_affine (ly : Layout) (hq : ly.quat = false) (hz : ly.noise = 0) {n nx : ℕ} (hn : 1 ≤ n)
+    (alpha beta kappa : ℝ) (hc : (n : ℝ) + utLambda n alpha kappa ≠ 0)
+    (T D : Mat ℝ ly.dof n) (B P : Mat ℝ n n) (hD : toM D = toM T * toM B)
+    (hB : toM B * (toM B)ᵀ = (utWeights n alpha beta kappa).c • toM P)
+    (ybar : Vec ℝ ly.dim) (Y : Mat ℝ ly.dim (2 * n + 1))
+    (hYlin : ∀ (r : Fin ly.dim) (j : Fin (2 * n + 1)) (hr : r.val < ly.lin),
+      Y r j = ybar r + perturbR D ⟨r.val, euler_row_lt_dof ly hq hz r⟩ j)
+    (hYcirc : ∀ (r : Fin ly.dim) (j : Fin (2 * n + 1)) (hr : ly.lin ≤ r.val),
+      Real.sin (Y r j) = Real.sin (ybar r + perturbR D ⟨r.val, euler_row_lt_dof ly hq hz r⟩ j) ∧
+      Real.cos (Y r j) = Real.cos (ybar r + perturbR D ⟨r.val, euler_row_lt_dof ly hq hz r⟩ j))
+    (hsmall : ∀ (r' : Fin ly.dof) (l : Fin n), ly.lin ≤ r'.val → -π < D r' l ∧ D r' l < π)
+    (hR : ∀ r' : Fin ly.dof, ly.lin ≤ r'.val →
+      0 < utLambda n alpha kappa / ((n : ℝ) + utLambda n alpha kappa)
+          + 2 * (1 / (2 * ((n : ℝ) + utLambda n alpha kappa))) * ∑ l, Real.cos (D r' l))
+    (qmean : ℕ → Quat ℝ) (Bin : Mat ℝ nx n) (f : Fin nx → Fin n) (hBin : toM Bin = (toM B).submatrix f id) :
+    let W := utWeights n alpha beta kappa
+    let mean := utLayoutMean ly W.mean Y qmean
+    let Doff := utLayoutOffsets ly ly.dof Y mean
+    (∀ r : Fin ly.dim, r.val < ly.lin → mean r = ybar r) ∧
+    (∀ r : Fin ly.dim, ly.lin ≤ r.val → mean r = wrapAngle (ybar r)) ∧
+    toM (utCov W.cov Doff Doff) = toM T * toM P * (toM T)ᵀ ∧
+    toM (utCov W.cov (perturbR Bin) Doff) = (toM P * (toM T)ᵀ).submatrix f id := by
+  intro W mean Doff
+  have hoff : Doff = perturbR D :=
+    affine_offsets ly hq hz hn alpha beta kappa hc D ybar Y hYlin hYcirc qmean hsmall hR
+  have hw2 := (weights_facts (n := n) _ hc).2
+  refine ⟨fun r hr => ?_, fun r hr => ?_, ?_, ?_⟩
+  · exact affine_mean_lin ly hq hz hn alpha beta kappa hc D ybar Y hYlin hYcirc qmean r hr
+  · exact affine_mean_circ ly hq hz hn alpha beta kappa hc D ybar Y hYlin hYcirc qmean r hr
+      (hR ⟨r.val, euler_row_lt_dof ly hq hz r⟩ hr)
+  · rw [hoff, toM_utCov, toM_perturbR, toV_utWeights_cov, Er_diag_Ert, hD, Matrix.transpose_mul]
+    have : toM T * toM B * ((toM B)ᵀ * (toM T)ᵀ) = toM T * (toM B * (toM B)ᵀ) * (toM T)ᵀ := by
+      simp only [Matrix.mul_assoc]
+    rw [this, hB, utWeights_c, Matrix.mul_smul, Matrix.smul_mul, smul_smul, hw2, one_smul]
+  · rw [hoff, toM_utCov, toM_perturbR, toM_perturbR, toV_utWeights_cov, Er_diag_Ert, hD, hBin,
+      Matrix.transpose_mul]
+    have : (toM B).submatrix f id * ((toM B)ᵀ * (toM T)ᵀ)
+        = ((toM B * (toM B)ᵀ) * (toM T)ᵀ).submatrix f id := by
+      rw [submatrix_rows_mul, Matrix.mul_assoc]
+    rw [this, hB, utWeights_c, Matrix.smul_mul]
+    ext a b
+    simp only [Matrix.smul_apply, Matrix.submatrix_apply, smul_eq_mul, id_eq]
+    rw [← mul_assoc, hw2, one_mul]
+
+/-- **Quaternion output mean through the eigenvector contract** (spectral-gap argument; lemma of C18
+    imported from `BFL/Proofs/QuatMean.lean`).  For quaternion sigma points `exp(±r_l/2) ⊗ c` around a
+    unit centre `c` — after a map `x ↦ p ⊗ x` or `x ↦ x ⊗ p` the centre is `p ⊗ m` resp. `m ⊗ p` and the
+    rotation vectors are rotated resp. unchanged — under the unscented weights with `c = n + λ > 0` (central
+    weight of any sign) and a positive weighted gap, the centre meets the contract of the eigen-solver
+    call of `mean_quaternion`, and **every** result meeting the contract is `±` the centre. -/
+theorem ut_quat_mean_contract {n : ℕ} (alpha beta kappa : ℝ)
+    (hc : 0 < (n : ℝ) + utLambda n alpha kappa)
+    (c : Quat ℝ) (hunit : c.w ^ 2 + c.x ^ 2 + c.y ^ 2 + c.z ^ 2 = 1) (r : Fin n → V3 ℝ)
+    (hgap : 0 < ∑ j, (utWeights n alpha beta kappa).mean j * (2 * (qexp (pertV r j)).w ^ 2 - 1)) :
+    Quat.IsDominantEigvec
+        (Quat.outerSum (toV (utWeights n alpha beta kappa).mean) (fun j => (toQ (qsum c (pertV r j))).get))
+        (toQ c).get ∧
+    ∀ v, Quat.IsDominantEigvec
+        (Quat.outerSum (toV (utWeights n alpha beta kappa).mean) (fun j => (toQ (qsum c (pertV r j))).get)) v →
+      v = (toQ c).get ∨ v = -(toQ c).get := by
+  have hw := toV_utWeights_mean n alpha beta kappa
+  have hgap' : 0 < ∑ j, wv (n := n) (utLambda n alpha kappa / ((n : ℝ) + utLambda n alpha kappa))
+      (1 / (2 * ((n : ℝ) + utLambda n alpha kappa))) j * (2 * (qexp (pertV r j)).w ^ 2 - 1) := by
+    have : ∀ j, (utWeights n alpha beta kappa).mean j = wv (n := n) (utLambda n alpha kappa / ((n : ℝ) + utLambda n alpha kappa))
+        (1 / (2 * ((n : ℝ) + utLambda n alpha kappa))) j := fun j => congrFun hw j
+    simpa only [this] using hgap
+  rw [hw]
+  exact quat_sigma_mean_contract _ _ (by positivity) c hunit r hgap'
+
+/-- The tangent offsets do not depend on which of `±c` the eigen-solver returned (this is the `w < 0`
+    branch of the logarithm), … -/
+theorem ut_quat_offsets_sign (y c : Quat ℝ) (hw : (qmul y (qconj c)).w ≠ 0) :
+    qdiff y (qneg c) = qdiff y c := qdiff_qneg y c hw
+
+/-- … and for a fixed rotation composed on the quaternion block they are the rotated perturbations
+    (`y = p ⊗ x`: `R_p r`) resp. the perturbations themselves (`y = x ⊗ p`), for spreads within the
+    half-turn bound and outside the cut-off band: with `ut_affine_cov` on these offsets the quaternion rows of
+    the covariance are those of `T P Tᵀ`, `T = R_p` resp. `1`. -/
+theorem ut_quat_rotation_offsets (p c : Quat ℝ) (hp : p.w ^ 2 + p.x ^ 2 + p.y ^ 2 + p.z ^ 2 = 1)
+    (hc : c.w ^ 2 + c.x ^ 2 + c.y ^ 2 + c.z ^ 2 = 1) (r : V3 ℝ)
+    (h1 : (1e-4 : ℝ) < r.norm) (h2 : r.norm < π) (h3 : (5e-5 : ℝ) < Real.sin (r.norm / 2)) :
+    qdiff (qmul p (qsum c r)) (qmul p c) = qrot p r ∧
+    qdiff (qmul (qsum c r) p) (qmul c p) = r ∧
+    (qrot p r).norm = r.norm :=
+  ⟨qdiff_left_rotation p c hp hc r h1 h2 h3, qdiff_right_rotation p c hp hc r h1 h2 h3, qrot_norm p hp r⟩
 
 /-- Non-vacuity of `ut_euler_reproduces`: one linear row and one angle, `α = 1`, `κ = 0` (`c = 2`),
     `B = 1`, `P = 1/2`. -/
